@@ -29,7 +29,17 @@ D2 == D1 \cup Quant(Bin(Small, Small)) \cup Bin(Quant(Small), Small) \cup StarCa
 Tiny == { [t |-> "lit", c |-> "a"], [t |-> "dot"], [t |-> "set", neg |-> FALSE, items |-> <<[k |-> "r", lo |-> "a", hi |-> "c"]>>] }
 D3 == D2 \cup Bin(Small, Quant(Small)) \cup Quant(Quant(Tiny)) \cup Bin(Bin(Tiny, Tiny), Tiny) \cup Bin(Tiny, Bin(Tiny, Tiny))
       \cup Quant(Bin(Quant(Tiny), Tiny))
-Family == IF Depth = 1 THEN D1 ELSE IF Depth = 2 THEN D2 ELSE D3
+(* Depth = 0: sets with a caret as a *member* (literal unless it is the first character of the set): after another item,
+   first in a negated set, twice; alone, quantified and next to a literal.  Run with a Sigma that contains "^". *)
+RawCaret == [k |-> "raw", c |-> "^"]
+CaretItems == { [k |-> "c", c |-> "a"], [k |-> "c", c |-> "-"], [k |-> "r", lo |-> "a", hi |-> "b"], [k |-> "c", c |-> "^"] }
+CaretSets == { [t |-> "set", neg |-> n, items |-> <<i, RawCaret>>] : n \in BOOLEAN, i \in CaretItems }
+             \cup { [t |-> "set", neg |-> n, items |-> <<i, RawCaret, j>>] : n \in BOOLEAN, i \in CaretItems, j \in CaretItems }
+             \cup { [t |-> "set", neg |-> TRUE, items |-> <<RawCaret>>], [t |-> "set", neg |-> TRUE, items |-> <<RawCaret, RawCaret>>] }
+             \cup { [t |-> "set", neg |-> TRUE, items |-> <<RawCaret, i>>] : i \in CaretItems }
+             \cup { [t |-> "set", neg |-> n, items |-> <<i, i>>] : n \in BOOLEAN, i \in CaretItems }
+D0 == CaretSets \cup Quant(CaretSets) \cup Bin(CaretSets, { [t |-> "lit", c |-> "b"], [t |-> "lit", c |-> "^"] })
+Family == IF Depth = 0 THEN D0 ELSE IF Depth = 1 THEN D1 ELSE IF Depth = 2 THEN D2 ELSE D3
 VARIABLES ast, pat, lang
 Init == ast \in Family /\ pat = Render(ast) /\ lang = Den(ast)
 Next == UNCHANGED <<ast, pat, lang>>
